@@ -13,7 +13,7 @@ MANIFEST = {
         "design_ref": "DESIGN.md 3/C06",
     }
 }
-PROPS = ["Nstd.Str.Props", "Nstd.Str.PropsBody"]
+PROPS = ["Nstd.Str.Props", "Nstd.Str.PropsBody", "Nstd.Str.PropsBody2"]
 LEAN_TARGETS = PROPS + ["drv_str"]
 DRIVER = "drv_str"
 NV = 4
